@@ -124,6 +124,9 @@ type RouteConfig struct {
 	CreateConnFn           CreateConnFunc
 	ChooseEndpointFn       ChooseEndpointFunc
 	CreateConnByEndpointFn CreateConnByEndpointFunc
+
+	// set by HTTPReverseProxy.Register
+	id uint64
 }
 
 // listen for a new domain name, if rewriteHost is not empty and rewriteHost func is not nil,
